@@ -87,6 +87,17 @@ func runC03(c *ctx) {
 		}
 	}
 	// range sizes and limits
+	if !c.quick() {
+		// the ten-million bound applies to each range, not to the array under construction (tens of seconds each)
+		for _, p := range []string{"$count([0, 1..10000000])", "$count([1..5000001, 1..5000000])", "$count([[1..10000000], [1..10000000]])"} {
+			g := goEval(p, nil)
+			c.note(p, "range-bound-per-range", true)
+			want := map[string]string{"$count([0, 1..10000000])": numAtom(10000001), "$count([1..5000001, 1..5000000])": numAtom(10000001), "$count([[1..10000000], [1..10000000]])": numAtom(2)}[p]
+			if g.outcome != "ok "+want {
+				c.disagree(Disagreement{Kind: "oracle", Prog: p, Go: g.outcome, Model: "ok " + want})
+			}
+		}
+	}
 	for _, p := range []string{"[1..5]", "[5..1]", "[3..3]", "[-2..2]", "[0..9999999]~>$count", "[1..10000000]~>$count",
 		"[0..10000000]", "[1..10000001]", "[1.5..3]", "[1..2.5]", "[1..1e300]", "[-1e300..1]", `["a".."b"]`, "[nothing..3]", "[1..nothing]", "[1..3, 7..9]", "[n4..n5]", "[n5..n4]"} {
 		c.diffEval(p, input, "range/limits")
